@@ -126,6 +126,7 @@ type VerifyCfg struct {
 	BitsPer  int // number of bit positions per mutated region (0 = all)
 	AltSweep int // number of extra bit positions for *Alter=memberBit beyond the canonical one
 	OnlyBit  *int // replay: exactly this bit of the mutated region
+	MultiByte int // number of multi-byte mutation variants per mutated region (single-deviation worlds)
 }
 
 // RunVerifyCase realises one case and runs all of its option settings.
@@ -135,8 +136,9 @@ func RunVerifyCase(cs Case, cfg VerifyCfg) Result {
 	seed := cfg.Seed*1_000_003 + int64(cs.ID)
 	type variant struct {
 		mutBit, altBit int
+		multi          int
 	}
-	variants := []variant{{0, -1}}
+	variants := []variant{{mutBit: 0, altBit: -1}}
 	if w.Get("src") == "intel" {
 		c := IntelConcrete(w)
 		for i, o := range cs.Runs {
@@ -160,24 +162,29 @@ func RunVerifyCase(cs Case, cfg VerifyCfg) Result {
 			bitsPer = 8 // every bit is swept for the mutation alone; combined with a second deviation a sample suffices
 		}
 		if cfg.OnlyBit != nil {
-			variants = append(variants, variant{*cfg.OnlyBit, -1})
+			variants = append(variants, variant{mutBit: *cfg.OnlyBit, altBit: -1})
 		} else if bitsPer == 0 || bitsPer >= n {
 			for b := 0; b < n; b++ {
-				variants = append(variants, variant{b, -1})
+				variants = append(variants, variant{mutBit: b, altBit: -1})
 			}
 		} else {
 			// seeded, evenly spread with a seeded offset, always including first and last bit
 			step := n / bitsPer
 			off := int(seed % int64(step+1))
-			variants = append(variants, variant{0, -1}, variant{n - 1, -1})
+			variants = append(variants, variant{mutBit: 0, altBit: -1}, variant{mutBit: n - 1, altBit: -1})
 			for b := off; b < n; b += step {
-				variants = append(variants, variant{b, -1})
+				variants = append(variants, variant{mutBit: b, altBit: -1})
 			}
+		}
+	}
+	if w.Get("mut") != "none" && cfg.MultiByte > 0 && len(cs.W) == 1 && cfg.OnlyBit == nil {
+		for i := 0; i < cfg.MultiByte; i++ { // seeded random multi-byte mutations confined to the region
+			variants = append(variants, variant{mutBit: 1000 + i, altBit: -1, multi: 2 + i%7})
 		}
 	}
 	if w.Get("tcbAlter") == "memberBit" || w.Get("qeAlter") == "memberBit" || w.Get("tcbAlter") == "sigBit" || w.Get("qeAlter") == "sigBit" {
 		for i := 0; i < cfg.AltSweep; i++ {
-			variants = append(variants, variant{0, int((seed + int64(i)*7919) % 100000)})
+			variants = append(variants, variant{mutBit: 0, altBit: int((seed + int64(i)*7919) % 100000)})
 		}
 	}
 	sub := 0
@@ -187,12 +194,12 @@ func RunVerifyCase(cs Case, cfg VerifyCfg) Result {
 			var c *gen.Concrete
 			if o["now"] == "unset" {
 				if cWall == nil {
-					cWall = gen.Build(w, gen.Params{Seed: seed, MutBit: v.mutBit, AltBit: v.altBit, WallNow: true})
+					cWall = gen.Build(w, gen.Params{Seed: seed, MutBit: v.mutBit, AltBit: v.altBit, MutMulti: v.multi, WallNow: true})
 				}
 				c = cWall
 			} else {
 				if cSet == nil {
-					cSet = gen.Build(w, gen.Params{Seed: seed, MutBit: v.mutBit, AltBit: v.altBit})
+					cSet = gen.Build(w, gen.Params{Seed: seed, MutBit: v.mutBit, AltBit: v.altBit, MutMulti: v.multi})
 				}
 				c = cSet
 			}
@@ -210,6 +217,9 @@ func RunVerifyCase(cs Case, cfg VerifyCfg) Result {
 			extra := Event{"real": vi*2 + map[bool]int{true: 1, false: 0}[o["now"] == "unset"]} // one realisation = one build of the world
 			if w.Get("mut") != "none" {
 				extra["bit"] = v.mutBit
+				if v.multi > 0 {
+					extra["multi"] = v.multi
+				}
 			}
 			if v.altBit >= 0 {
 				extra["altBit"] = v.altBit
